@@ -59,4 +59,6 @@ HydEquivariant == R.hashyd = 1 =>
               /\ \A j \in 1..Len(R.hydB) : \E k \in 1..Len(R.hydA) : HydNear(R.hydA[k], R.hydB[j])
 (* the .pka text (apart from the date line) is identical where the relation promises identical results *)
 TextSame == R.textcmp = 1 => R.textsame = 1
+(* the rows of the written file come in the same order (as residue identities): labels identify, they do not sort *)
+RowOrderSame == R.rowcmp = 1 => R.rowsA = R.rowsB
 =============================================================================
